@@ -43,6 +43,8 @@ func init() {
 			c20DialConn(c)
 			// both upgraders share negotiateExtensions: a refusal ends the handshake on both sides
 			negotiateExtensionsRules(c, "C11")
+			// the sniffing reader chains the connection behind what it prefetched, always
+			c20PrefetchKeepsSource(c, "C11")
 		},
 	})
 }
